@@ -162,7 +162,26 @@ def obligation(ctx, f: Func, label: str, spec_src: str, exc: str, *, rename=None
                 break
     if before_super:
         sup = facts.super_init_call(f)
-        if sup is None or not all(r.lineno < sup.lineno for r, _ in mine):
+        def _excluded(r):
+            """The raise and the constructor call stand in the two arms of one `if`: the call runs only when nothing is raised."""
+            cur = astx.stmt_of(sup, pm)
+            while cur is not None and cur is not f.node:
+                par = pm.get(cur)
+                if isinstance(par, ast.If):
+                    mine_arm, other = (par.body, par.orelse) if cur in par.body else (par.orelse, par.body)
+                    if any(r is n for st in other for n in ast.walk(st)):
+                        return True
+                cur = par
+            return False
+        # (statement order in the loaded tree, not line numbers: the loader's guard-clause form moves arms)
+        pos = {}
+
+        def _number(n):
+            pos[id(n)] = len(pos)
+            for c in ast.iter_child_nodes(n):
+                _number(c)
+        _number(f.node)
+        if sup is None or not all(pos.get(id(r), 0) < pos.get(id(sup), -1) or _excluded(r) for r, _ in mine):
             problems.append("the rejection does not precede the base-class constructor (which runs the election)")
     if before_call:
         cs = astx.calls_in(f.node, before_call)
